@@ -290,6 +290,25 @@ def validUtf8 : Bytes → Bool
       | _ => false
     else false
 
+/-- `Decoder::skip()` walks text strings with `str_iter`, which validates UTF-8: an item can be skipped
+    (unknown map key, surplus or gap array element, `EmptyMap`) only if every text string in it is valid -/
+def chunksUtf8 : List (Head × Bytes) → Bool
+  | [] => true
+  | (_, bs) :: cs => validUtf8 bs && chunksUtf8 cs
+
+mutual
+def itemUtf8Ok : Item → Bool
+  | .atom _ => true
+  | .str h bs => if h.major = 3 then validUtf8 bs else true
+  | .strIndef m cs => if m = 3 then chunksUtf8 cs else true
+  | .seq _ xs => utf8OkList xs
+  | .seqIndef _ xs => utf8OkList xs
+  | .tag _ i => itemUtf8Ok i
+def utf8OkList : List Item → Bool
+  | [] => true
+  | x :: xs => itemUtf8Ok x && utf8OkList xs
+end
+
 /-! ## leaf codecs -/
 
 def mkUndefined : Item := .atom ⟨7, 23, []⟩
@@ -497,17 +516,20 @@ def encArr (e : Schema → Value → Option Item) (trunc : Bool) : Nat → List 
   | _, _, _ => none
 
 /-- array layout read by position; missing trailing fields are `None` when optional, an
-    error otherwise; surplus elements are skipped -/
+    error otherwise; surplus and gap elements are skipped
+    (`Decoder::skip`, which needs their text strings to be valid UTF-8) -/
 def decArr (d : Schema → Item → Option Value) : Nat → List (Nat × Schema) → List Item → Option (List Value)
-  | _, [], _ => some []
+  | _, [], items => if utf8OkList items then some [] else none
   | pos, (idx, s) :: fs, items =>
-    match items.drop (idx - pos) with
-    | it :: rest =>
-      match d s it, decArr d (idx + 1) fs rest with
-      | some v, some vs => some (v :: vs)
-      | _, _ => none
-    | [] =>
-      if s.isOpt then (decArr d (idx + 1) fs []).map (fun vs => Value.none :: vs) else none
+    if utf8OkList (items.take (idx - pos)) then
+      match items.drop (idx - pos) with
+      | it :: rest =>
+        match d s it, decArr d (idx + 1) fs rest with
+        | some v, some vs => some (v :: vs)
+        | _, _ => none
+      | [] =>
+        if s.isOpt then (decArr d (idx + 1) fs []).map (fun vs => Value.none :: vs) else none
+    else none
 
 /-- map layout: one entry per non-nil field, key = index -/
 def encMapFields (e : Schema → Value → Option Item) : List (Nat × Schema) → List Value → Option (List (Item × Item))
@@ -538,7 +560,7 @@ def decMapEntries (d : Schema → Item → Option Value) (fs : List (Nat × Sche
           match d s v, decMapEntries d fs rest with
           | some x, some r => some ((idx, x) :: r)
           | _, _ => none
-        | none => decMapEntries d fs rest
+        | none => if itemUtf8Ok v then decMapEntries d fs rest else none
       else none
 
 /-- the last assignment to a field wins -/
@@ -827,6 +849,9 @@ def encEmptyMap : Value → Option Item
   | .unit => some (mkMapFlat [])
   | _ => none
 
+/-- `EmptyMap::decode` is `d.skip()` -/
+def decEmptyMap (it : Item) : Option Value := if itemUtf8Ok it then some .unit else none
+
 def encZeroOrOne (e : Value → Option Item) : Value → Option Item
   | .none => some (mkArray [])
   | .some v => (e v).map (fun it => mkArray [it])
@@ -920,7 +945,7 @@ def dec (env : Env) : Nat → Schema → Item → Option Value
     | .kvPairs k x => decKvPairs (dec env f k) (dec env f x) it
     | .cborWrap s => decCborWrap (dec env f s) it
     | .tagWrap _ s => decTagWrap (dec env f s) it
-    | .emptyMap => some .unit
+    | .emptyMap => decEmptyMap it
     | .zeroOrOne s => decZeroOrOne (dec env f s) it
     | .any => some (.any it)
     | .ref i =>
